@@ -339,6 +339,31 @@ func runC08(c *Ctx) error {
 			}
 			_ = tap.Close()
 			c.count(tag, true, "kind=reader-fails-mid-stream")
+			// a transport that accepts part of a frame and then fails: the call must not report success (compressed frames too:
+			// the window update behind the write must not hide the error), and later calls are rejected
+			for _, fault := range []string{"short-write", "write-error"} {
+				conn3, tap3, err := spec.open(&recHandler{})
+				if err != nil {
+					return err
+				}
+				tap3.mu.Lock()
+				if fault == "short-write" {
+					tap3.shortWrite = tap3.nWrite
+				} else {
+					tap3.failWrite = tap3.nWrite
+				}
+				tap3.mu.Unlock()
+				payload := bytes.Repeat([]byte("compressible payload "), 100)
+				r1 := rawSend(conn3, sendOp{API: "message", Opcode: 1, Slices: [][]byte{payload}})
+				r2 := rawSend(conn3, sendOp{API: "message", Opcode: 1, Slices: [][]byte{[]byte("later")}})
+				r3 := rawSend(conn3, sendOp{API: "async", Opcode: 2, Slices: [][]byte{[]byte("later async")}})
+				tag3 := fmt.Sprintf("transport fault inside a frame server=%v pmd=%v fault=%s results=%d,%d,%d", server, pmd, fault, r1, r2, r3)
+				if r1 == 0 || r2 == 0 || r3 == 0 {
+					c.oracleFail(fmt.Sprintf("a write whose transport write failed part-way, or a write after it, reported success [%s]", tag3), "success-not-once", map[string]any{"tag": tag3})
+				}
+				_ = tap3.Close()
+				c.count(tag3, true, "kind=fault-inside-frame")
+			}
 			// a reader that returns its last bytes TOGETHER with io.EOF (gzip/flate readers, HTTP bodies, iotest.DataErrReader)
 			for _, sizes := range [][]int{{1}, {1000, 500}, {131072, 7}, {131072, 131072, 1}} {
 				conn2, tap2, err := spec.open(&recHandler{})
